@@ -14,6 +14,11 @@ CONSTANTS
   RestoreOnReturn = TRUE
   EmbRestoreAll = FALSE
   SuperCheckFirst = TRUE
+  GuardCanonical = TRUE
+  RegisterAfterCreate = TRUE
+  NsCachesInit = TRUE
+  EmbNullChecked = TRUE
+  OverflowWrapped = TRUE
 INVARIANT TypeOK
 INVARIANT ImplRefinesReq
 INVARIANT PositionFileOK
